@@ -480,6 +480,47 @@ func TestVerif_C11(t *testing.T) {
 				}
 				c11CheckNetPol(t, stored, lid, group)
 			}
+			// metamorphic: what an update leaves behind for the objects of the current manifest is
+			// what a first deploy of that manifest generates (node ports aside): services forward
+			// to the ports of THIS manifest, ingresses route the hosts of THIS manifest
+			if round >= 1 {
+				kc2 := kfake.NewSimpleClientset()
+				cl2 := &client{kc: kc2, ac: afake.NewSimpleClientset(), ns: "lease", settings: st, log: logger}
+				if err := cl2.Deploy(context.Background(), lid, &group); err == nil {
+					fresh, _ := kc2.CoreV1().Services(metav1.NamespaceAll).List(context.Background(), metav1.ListOptions{})
+					portsOf := func(sv corev1.Service) string {
+						var ps []string
+						for _, p := range sv.Spec.Ports {
+							ps = append(ps, fmt.Sprintf("%s:%d->%s/%s", p.Name, p.Port, p.TargetPort.String(), p.Protocol))
+						}
+						sort.Strings(ps)
+						return string(sv.Spec.Type) + " " + strings.Join(ps, ",")
+					}
+					for _, f := range fresh.Items {
+						for _, sv := range svcs.Items {
+							if sv.Name == f.Name && portsOf(sv) != portsOf(f) {
+								t.Fatalf("C11 VIOLATION key=c11-update-differs-from-fresh-deploy: round %d: after the update service %s is {%s}, a first deploy of the same manifest generates {%s}", round, sv.Name, portsOf(sv), portsOf(f))
+							}
+						}
+					}
+					freshIng, _ := kc2.NetworkingV1().Ingresses(metav1.NamespaceAll).List(context.Background(), metav1.ListOptions{})
+					rulesOf := func(in netv1.Ingress) string {
+						var rs []string
+						for _, r := range in.Spec.Rules {
+							rs = append(rs, r.Host)
+						}
+						sort.Strings(rs)
+						return strings.Join(rs, ",")
+					}
+					for _, f := range freshIng.Items {
+						for _, in := range ings.Items {
+							if in.Name == f.Name && rulesOf(in) != rulesOf(f) {
+								t.Fatalf("C11 VIOLATION key=c11-update-differs-from-fresh-deploy: round %d: after the update ingress %s routes hosts {%s}, a first deploy of the same manifest generates {%s}", round, in.Name, rulesOf(in), rulesOf(f))
+							}
+						}
+					}
+				}
+			}
 		}
 	})
 }
